@@ -131,13 +131,20 @@ func (r *runner) exec(j job) {
 		data = append(append([]byte{}, base...), make([]byte, j.tail)...)
 	}
 	src := &seam.Source{Data: data}
+	// a stream that ends exactly after the s samples: in every second scenario the final Read reports
+	// io.EOF together with its bytes (allowed by io.Reader), which must not change anything
+	eofWith := j.extra == 0 && j.tail == 0 && descParity(j.desc)
+	src.EOFWithData = eofWith
 	var verdict bool
 	var err error
 	pv := common.Catch(func() { verdict, err = w.Seq(src) })
 	atomic.AddInt64(&r.evals, 1)
 	r.sigs.Add(j.sig)
 	key := fmt.Sprintf("%s/%s", w.Name, j.desc)
-	rep := map[string]interface{}{"workflow": w.Name, "scenario": j.desc, "extra_samples": j.extra, "tail_bytes": j.tail}
+	rep := map[string]interface{}{"workflow": w.Name, "scenario": j.desc, "extra_samples": j.extra, "tail_bytes": j.tail, "eof_with_last_bytes": eofWith}
+	if eofWith {
+		r.sigs.Add("eof-with-last-bytes/" + w.Name)
+	}
 	if pv != nil {
 		r.ctx.Report(key+"/panic", fmt.Sprintf("%s panicked: %v", w.Name, pv), rep)
 		return
@@ -195,6 +202,14 @@ func (r *runner) exec(j job) {
 		r.sample = append(r.sample, map[string]interface{}{"workflow": w.Name, "scenario": j.desc, "model_verdict": d.Verdict, "violators": fmt.Sprint(d.Violators), "returned": verdict, "error": fmt.Sprint(err)})
 	}
 	r.mu.Unlock()
+}
+
+func descParity(s string) bool {
+	h := 0
+	for _, c := range []byte(s) {
+		h = h*31 + int(c)
+	}
+	return h&1 == 1
 }
 
 func abbreviate(v []int) string {
